@@ -512,7 +512,13 @@ impl Serialize for Extensions {
             ExtensionsVariantV1::Causal(extensions) => {
                 seq.serialize_element(&extensions.log_id)?;
                 seq.serialize_element(&extensions.timestamp)?;
-                seq.serialize_element(&extensions.previous)?;
+
+                // Encode the set in a canonical (sorted) order. `HashSet` iteration order
+                // differs between instances, but header bytes, and with them the operation id
+                // and signature validity, must be a function of the value only.
+                let mut previous: Vec<&Hash> = extensions.previous.iter().collect();
+                previous.sort();
+                seq.serialize_element(&previous)?;
             }
         }
 
